@@ -87,6 +87,10 @@ def rand_case(r, overlap=False):
 def cases(ctx):
     r = ctx.rng
     out = []
+    # templates with EMPTY segments (trailing slash, `//`): HTTP tells `/items/` from `/items` (finding F05-5)
+    for t in ("/items/", "/a/{id}/", "/a//b"):
+        tn = __import__("re").findall(r"\{([^}]*)\}", t)
+        out.append({"op": "server.op", "in": {"ops": [{"opid": "one", "method": "get", "path": t, "params": [{"name": x, "in": "path", "level": "op", "type": "string"} for x in tn], "body": None, "responses": [["204", []]]}]}})
     for m in METHODS:
         out.append({"op": "server.op", "in": {"ops": [{"opid": "op" + m, "method": m, "path": "/a/{id}", "params": [{"name": "id", "in": "path", "level": "op", "type": "string"}], "body": None, "responses": [["200", LAYOUTS["json"]], ["404", []], ["default", LAYOUTS["json"]]]}]}})
     for k in KEYS7 + ["1XX", "3XX", "302", "299", "204"]:
